@@ -5,7 +5,11 @@
 
    One thread = one SetupNewUser call. The atomic steps are the assumptions of this model (DESIGN §3):
    one DoSearchUserRaw, semop(-1) granting exclusivity, SetUserID, the write of one .PASSWDS record,
-   semop(+1). [recheck c] says whether the id is looked up again inside the critical section:
+   semop(+1). The semaphore is a COUNTER ([semv], the value semctl(GETVAL) reads): PasswdLock waits until it
+   is positive and decrements it, every PasswdUnlock — the deferred one on the success path and on each
+   error path inside the critical section — increments it, whatever its value; nothing in the step
+   relation caps it at 1. That it never exceeds 1 is a theorem about the protocol as coded
+   (Props: C15_sem_counter), not a property of the semaphore. [recheck c] says whether the id is looked up again inside the critical section:
    [code_rechecks] below is what the code in the tree does now; the other value is kept so that the
    theorem about the code as it was found (C15_unique_id_refuted) stays stated and checked.
 
@@ -51,7 +55,8 @@ Record cfg : Type := mkCfg {
 
 Record st : Type := mkSt {
   pcs : nat -> pc;
-  sem : option nat;           (* thread holding the passwd semaphore *)
+  sem : option nat;           (* ghost: the thread whose semop(-1) was granted last and has not posted yet; no step reads it *)
+  semv : nat;                 (* the value of the passwd semaphore (semctl GETVAL); the only thing PasswdLock looks at *)
   idx : nat -> list Z;
   pwd : nat -> list Z
 }.
@@ -66,7 +71,7 @@ Definition exists_id (n : nat) (tab : nat -> list Z) (id : list Z) : bool :=
 Definition find_empty (n : nat) (tab : nat -> list Z) : option nat :=
   find (fun k => is_empty (tab k)) (seq 0 n).
 
-Definition set_pc (s : st) (t : nat) (p : pc) : st := mkSt (updf (pcs s) t p) (sem s) (idx s) (pwd s).
+Definition set_pc (s : st) (t : nat) (p : pc) : st := mkSt (updf (pcs s) t p) (sem s) (semv s) (idx s) (pwd s).
 
 (* one step of thread t *)
 Definition step_thread (c : cfg) (s : st) (t : nat) : option st :=
@@ -75,9 +80,9 @@ Definition step_thread (c : cfg) (s : st) (t : nat) : option st :=
       if exists_id (nslots c) (idx s) (uid c t) then Some (set_pc s t (PDoneErr E_EXISTS))
       else Some (set_pc s t PLock)
   | PLock =>
-      match sem s with
-      | None => Some (mkSt (updf (pcs s) t (if recheck c then PRecheck else PFind)) (Some t) (idx s) (pwd s))
-      | Some _ => None                                                       (* blocked in semop *)
+      match semv s with
+      | S v => Some (mkSt (updf (pcs s) t (if recheck c then PRecheck else PFind)) (Some t) v (idx s) (pwd s))
+      | O => None                                                            (* blocked in semop(-1) *)
       end
   | PRecheck =>
       if exists_id (nslots c) (idx s) (uid c t) then Some (set_pc s t (PUnlockErr E_EXISTS))
@@ -87,10 +92,10 @@ Definition step_thread (c : cfg) (s : st) (t : nat) : option st :=
       | Some k => Some (set_pc s t (PSetID k))
       | None => Some (set_pc s t (PUnlockErr E_NOSLOT))
       end
-  | PSetID k => Some (mkSt (updf (pcs s) t (PWrite k)) (sem s) (updf (idx s) k (uid c t)) (pwd s))
-  | PWrite k => Some (mkSt (updf (pcs s) t (PUnlock k)) (sem s) (idx s) (updf (pwd s) k (uid c t)))
-  | PUnlock k => Some (mkSt (updf (pcs s) t (PDoneOk k)) None (idx s) (pwd s))
-  | PUnlockErr e => Some (mkSt (updf (pcs s) t (PDoneErr e)) None (idx s) (pwd s))
+  | PSetID k => Some (mkSt (updf (pcs s) t (PWrite k)) (sem s) (semv s) (updf (idx s) k (uid c t)) (pwd s))
+  | PWrite k => Some (mkSt (updf (pcs s) t (PUnlock k)) (sem s) (semv s) (idx s) (updf (pwd s) k (uid c t)))
+  | PUnlock k => Some (mkSt (updf (pcs s) t (PDoneOk k)) None (S (semv s)) (idx s) (pwd s))      (* semop(+1) *)
+  | PUnlockErr e => Some (mkSt (updf (pcs s) t (PDoneErr e)) None (S (semv s)) (idx s) (pwd s))  (* the deferred semop(+1) *)
   | PDoneOk _ => None
   | PDoneErr _ => None
   end.
@@ -114,7 +119,8 @@ Definition step (c : cfg) (s : st) (a : act) : option st :=
   | Intr t => step_intr s t
   end.
 
-Definition init_st (tab : nat -> list Z) : st := mkSt (fun _ => PCheck) None tab tab.
+(* PasswdInit: SETVAL 1 *)
+Definition init_st (tab : nat -> list Z) : st := mkSt (fun _ => PCheck) None 1%nat tab tab.
 
 (* a schedule is a list of actions; an action that is not enabled is skipped *)
 Definition step_skip (c : cfg) (s : st) (a : act) : st := match step c s a with Some s' => s' | None => s end.
@@ -125,6 +131,21 @@ Fixpoint replay (c : cfg) (sch : list act) (s : st) : option st :=
   match sch with
   | [] => Some s
   | a :: r => match step c s a with Some s' => replay c r s' | None => None end
+  end.
+
+(* schedule numbers: t >= 0 is a step of thread t, -(t+1) an interrupted wait of thread t *)
+Definition act_of_Z (z : Z) : act := if z <? 0 then Intr (Z.to_nat (- z - 1)) else Step (Z.to_nat z).
+
+(* replay of an observed trace given as schedule numbers, with observation points: the number [OBS] in the schedule
+   is not a step — it records the value of the semaphore at that moment (the driver reads semctl(GETVAL) there) *)
+Definition OBS : Z := 1000000.
+Fixpoint replay_obs (c : cfg) (zs : list Z) (s : st) : option (st * list Z) :=
+  match zs with
+  | [] => Some (s, [])
+  | z :: r =>
+      if z =? OBS then
+        match replay_obs c r s with Some (s', o) => Some (s', Z.of_nat (semv s) :: o) | None => None end
+      else match step c s (act_of_Z z) with Some s' => replay_obs c r s' | None => None end
   end.
 
 (* what ptt.SetupNewUser in the tree does now *)
@@ -150,22 +171,22 @@ Definition pc_code (p : pc) : list Z :=
   | _ => [0; 0]
   end.
 
-(* schedule numbers: t >= 0 is a step of thread t, -(t+1) an interrupted wait of thread t *)
-Definition act_of_Z (z : Z) : act := if z <? 0 then Intr (Z.to_nat (- z - 1)) else Step (Z.to_nat z).
-
-(* case: [[1]; ids of the threads; initial table (one id per slot, missing = empty); schedule]
-   result: 0 :: (per thread: code, uid|error) ++ [-1] ++ index ids ++ [-1] ++ .PASSWDS ids;
-   status 3 7 = a scheduled step was not enabled *)
+(* case: [[1]; ids of the threads; initial table (one id per slot, missing = empty); schedule (with OBS marks)]
+   result: 0 :: (per thread: code, uid|error) ++ [-1] ++ index ids ++ [-1] ++ .PASSWDS ids
+             ++ [-1] ++ semaphore values at the OBS marks ++ [-1; final semaphore value];
+   status 3 7 = a scheduled step was not enabled.
+   Threads of a later phase of a multi-phase scenario are simply threads that take their first step later. *)
 Definition run_case (args : list (list Z)) : list Z :=
   match args with
   | [[1]; ids; tab0; sch] =>
       let idl := dec_strs (length ids) ids in
       let tabl := dec_strs (length tab0) tab0 in
       let c := mkCfg (Z.to_nat ptttype.MAX_USERS) code_rechecks (fun t => nth t idl []) in
-      match replay c (map act_of_Z sch) (init_st (fun k => nth k tabl [])) with
+      match replay_obs c sch (init_st (fun k => nth k tabl [])) with
       | None => [ST_ERR; 7]
-      | Some s => ST_OK :: flat_map (fun t => pc_code (pcs s t)) (seq 0 (length idl)) ++ [-1]
+      | Some (s, obs) => ST_OK :: flat_map (fun t => pc_code (pcs s t)) (seq 0 (length idl)) ++ [-1]
                         ++ enc_tab (nslots c) (idx s) ++ [-1] ++ enc_tab (nslots c) (pwd s)
+                        ++ [-1] ++ obs ++ [-1; Z.of_nat (semv s)]
       end
   | _ => [ST_BADCASE]
   end.
